@@ -262,6 +262,10 @@ func checkCmd(w *world, prop, tier string, seed int, opts *runOpts, expectMode b
 	sort.Strings(assumedContracts)
 	assumedContracts = uniq(assumedContracts)
 
+	// declared package tables are compared with the real package values by execution
+	if msg := verifyGlobals(w, cons); msg != "" {
+		notGen = append(notGen, msg)
+	}
 	// expected-obligation guard
 	// (only postcondition-like obligations are guarded, and only for presence: call-site obligations and path
 	// counts legitimately change under harmless refactors)
@@ -427,4 +431,45 @@ func uniq(s []string) []string {
 		}
 	}
 	return out
+}
+
+// verifyGlobals runs an injected test that compares `//@ global` declarations with the package variables.
+func verifyGlobals(w *world, cons []*Contract) string {
+	for _, cf := range w.files {
+		if len(cf.Globals) == 0 {
+			continue
+		}
+		used := false
+		for _, c := range cons {
+			if c.PkgPath == cf.PkgPath {
+				used = true
+			}
+		}
+		if !used {
+			continue
+		}
+		var decls []string
+		var names []string
+		for n := range cf.Globals {
+			names = append(names, n)
+		}
+		sort.Strings(names)
+		for _, n := range names {
+			var vs []string
+			for _, v := range cf.Globals[n] {
+				vs = append(vs, fmt.Sprint(v))
+			}
+			decls = append(decls, n+"="+strings.Join(vs, ","))
+		}
+		rel, _ := filepath.Rel(w.repo, cf.PkgDir)
+		plan := &replayPlan{template: "globals_test.go.tmpl", pkgDir: rel, test: "TestGovcGlobals", env: map[string]string{"GOVC_GLOBALS": strings.Join(decls, ";")}}
+		_, out, _ := runReplay(w.repo, w.verifDir, plan)
+		if !strings.Contains(out, "GLOBALS-OK") || strings.Contains(out, "GLOBALS-MISMATCH") {
+			if len(out) > 300 {
+				out = out[:300]
+			}
+			return "declared package tables of " + cf.PkgPath + " do not match the package (or could not be checked): " + out
+		}
+	}
+	return ""
 }
